@@ -17,6 +17,8 @@ class SdkDriver:
         self.created_in_segment: Dict[str, int] = {}
         self.segment = 0
         self.on_top = None
+        self.tmpl_mode = "concrete"
+        self.tmpl_values = {}
 
     # ---- operands ------------------------------------------------------------------------------
     def var_register(self, name):
@@ -101,6 +103,15 @@ class SdkDriver:
             self.qid[st["q"]] = q.qubit_id
         elif op == "gate":
             getattr(self.qubits[st["q"]], st["g"].upper())()
+        elif op == "rot":
+            n = st["n"]
+            if isinstance(n, dict):
+                if self.tmpl_mode == "template":
+                    from netqasm.lang.operand import Template
+                    n = Template(n["tmpl"])
+                else:
+                    n = self.tmpl_values[n["tmpl"]]
+            getattr(self.qubits[st["q"]], "rot_" + st["axis"].upper())(n=n, d=st["d"])
         elif op == "cnot":
             self.qubits[st["c"]].cnot(self.qubits[st["t"]])
         elif op == "meas":
